@@ -34,6 +34,9 @@ type c07Case struct {
 	// content: how each link of the chain page -> l1 -> l2 ... uses `content`
 	Forms    []string `json:"forms,omitempty"`
 	PageForm string   `json:"page_form,omitempty"` // normal | empty | two
+	// Ctor: how the engine is built: "" = NewFS(fs); withfs = New(WithFS(fs)); replace = NewFS(decoy, WithFS(fs))
+	// where the decoy file system differs in whether layouts/base.vuego exists
+	Ctor string `json:"ctor,omitempty"`
 }
 
 func (c *c07Case) Key() string { return core.KeyOf(c) }
@@ -275,6 +278,19 @@ func (c *c07Case) Run(ctx *core.Ctx) {
 	ctx.Eval(1)
 	var buf bytes.Buffer
 	t := vuego.NewFS(files.FS())
+	switch c.Ctor {
+	case "withfs":
+		t = vuego.New(vuego.WithFS(files.FS()))
+	case "replace":
+		decoy := Files{"other.vuego": "x"}
+		if _, has := files["layouts/base.vuego"]; !has {
+			decoy["layouts/base.vuego"] = `<div id="decoy"><section v-html="content"></section></div>`
+		}
+		t = vuego.NewFS(decoy.FS(), vuego.WithFS(files.FS()))
+	}
+	if c.Ctor != "" {
+		trig += "/ctor=" + c.Ctor
+	}
 	err := t.Load(page).Fill(fill).Render(bg, &buf)
 	out := buf.String()
 	where := c.Part
@@ -330,7 +346,7 @@ func init() {
 		ID:        "C07",
 		Level:     "exploration",
 		CPUBudget: 20,
-		Rule: "all layout graphs over {page (root or pages/), layouts/a, layouts/b, layouts/base (absent or present), pages/a (relative twin)} where every file's layout key ranges over {none, a, b, base, self, missing} and the page's is given by front-matter or Fill; straight chains and cycles of chosen lengths incl. 98..101; every subset of {page fm, a fm, b fm, Fill} defining key k; every chain of 1..3 layouts where each link uses `content` in one of 7 ways (wraps it, passes it bare, hides it behind a false / true v-if, ignores it, uses it twice, prints it escaped) x page body {one element, nothing, two elements}. " +
+		Rule: "all layout graphs over {page (root or pages/), layouts/a, layouts/b, layouts/base (absent or present), pages/a (relative twin)} where every file's layout key ranges over {none, a, b, base, self, missing} and the page's is given by front-matter or Fill, on engines built with NewFS(fs), New(WithFS(fs)) and NewFS(decoy, WithFS(fs)) (decoy differing in the presence of layouts/base.vuego); straight chains and cycles of chosen lengths incl. 98..101; every subset of {page fm, a fm, b fm, Fill} defining key k; every chain of 1..3 layouts where each link uses `content` in one of 7 ways (wraps it, passes it bare, hides it behind a false / true v-if, ignores it, uses it twice, prints it escaped) x page body {one element, nothing, two elements}. " +
 			"oracle: reference resolver (relative-then-layouts/, default rule, limit 100) gives the nesting order with each marker once, or error with nothing written. non-trivial = all",
 		Bounds:      map[string]string{"quick": "all graphs over <=5 files; chains 1,2,3,5,98,99,100,101,150; cycles 1,2,3,7", "thorough": "same plus chains up to 300"},
 		Assumptions: []string{"a chain of exactly 100 links is accepted either way"},
@@ -354,6 +370,10 @@ func init() {
 											continue
 										}
 										emit(&c07Case{Part: "graph", PageDir: dir, PageLay: pl, PageSrc: src, ALay: al, BLay: bl, Base: base, Twin: twin})
+										if al == "none" || bl == "none" {
+											emit(&c07Case{Part: "graph", PageDir: dir, PageLay: pl, PageSrc: src, ALay: al, BLay: bl, Base: base, Twin: twin, Ctor: "withfs"})
+											emit(&c07Case{Part: "graph", PageDir: dir, PageLay: pl, PageSrc: src, ALay: al, BLay: bl, Base: base, Twin: twin, Ctor: "replace"})
+										}
 									}
 								}
 							}
